@@ -13,6 +13,7 @@ def VStr(s): return {"k": "str", "s": list(s)}
 
 
 ELL = {"k": "ellipsis"}
+STR0 = {"t": "str", "value": [], "len": [], "min_len": [], "max_len": [], "alphabet": [], "substr": [], "pattern": []}
 
 
 def _opt(rng, p, make):
